@@ -14,6 +14,6 @@ Export06(x) == \/ x.mut = "none"
                \/ Accepting(x)
                \/ /\ ExportMode = "thorough" /\ x.mut \in SmallMuts
                   /\ ((x.alg = RSALabelOf(x.h0)) # (x.rel = "root" /\ x.time = "valid"))
-Emit06 == (ExportMode # "none" /\ Export06(c)) => PrintT(<<"CASE", ToJson([c |-> c, exp |-> r])>>)
-Emit16 == (ExportMode # "none") => PrintT(<<"CASE", ToJson([c |-> c, exp |-> r])>>)
+Emit06 == (ExportMode # "none" /\ Export06(c)) => PrintT(<<"CASE", ToJson([c |-> c, exp |-> r, hist |-> hist])>>)
+Emit16 == (ExportMode # "none") => PrintT(<<"CASE", ToJson([c |-> c, exp |-> r, hist |-> hist])>>)
 =============================================================================
